@@ -160,10 +160,10 @@ fn gen_c07(r: &mut Rng, _t: Tier, _job: u64) -> Plan {
                     _ => r.chance(1, 3),
                 };
                 if want_null && nullable {
-                    if r.chance(1, 5) {
-                        Cell::Myc(MycV::Null)
-                    } else {
-                        Cell::Null(r.below(6) as u8)
+                    match r.below(10) {
+                        0 | 1 => Cell::Myc(MycV::Null),
+                        2 => Cell::Ref(Box::new(Cell::Null(1))),
+                        _ => Cell::Null(r.below(6) as u8),
                     }
                 } else {
                     let c2 = gen_cell_for_col(r, c.coltype, c.flags, big);
@@ -193,7 +193,7 @@ fn gen_c07(r: &mut Rng, _t: Tier, _job: u64) -> Plan {
             unit.cols[col].flags |= 1;
             let c = unit.cols[col].clone();
             for rw in unit.rows.iter_mut() {
-                if matches!(rw[col], Cell::Null(_) | Cell::Myc(MycV::Null)) {
+                if is_null_cell(&rw[col]) {
                     rw[col] = gen_cell_for_col(r, c.coltype, c.flags, false);
                 }
             }
